@@ -325,6 +325,10 @@ Definition to_cmp (x y : Z) : comparison := x ?= y.
 Definition to_hasht : hasht Z :=
   Hasht (fun x => [TCall 9 (le_bytes 4 x)]) (provided_hash_slice (fun x => [TCall 9 (le_bytes 4 x)])).
 
+(* Zn: zero-sized; == is always false and partial_cmp always None (itself included) *)
+Definition zn_eq (x y : Z) : bool := false.
+Definition zn_pcmp (x y : Z) : option comparison := None.
+
 (* Wb(u8): one byte with a hand-written Hash: write_u8(x); write_u8(0xAA); hash_slice is the provided loop *)
 Definition wb_hasht : hasht Z :=
   Hasht (fun x => [TCall 1 [x]; TCall 1 [170]]) (provided_hash_slice (fun x => [TCall 1 [x]; TCall 1 [170]])).
